@@ -273,8 +273,8 @@ def check_history(mode, T, hist):
     viol = []
     if sch.outcome != "done" or not box.get("done"):
         t0exc = sch.threads[0].exc if sch.threads else None
-        return (("abnormal", sch.outcome), [], [("harness-outcome:%s" % sch.outcome, "history %r: %r %r" % (
-            hist, sch.deadlock_info, t0exc))], None)
+        sig = ("operation-raised:%s" % type(t0exc).__name__) if (sch.outcome == "done" and t0exc is not None) else "harness-outcome:%s" % sch.outcome
+        return (("abnormal", sch.outcome), [], [(sig, "history %r: %r %r" % (hist, sch.deadlock_info, t0exc))], None)
     for t in sch.threads:
         if t.exc is not None:
             viol.append(("thread-raised:%s" % type(t.exc).__name__, "history %r: %s raised %r" % (hist, t.name, t.exc)))
@@ -457,9 +457,13 @@ def check_history(mode, T, hist):
         rel = "past"     # an expiry in the past has the same future whatever its distance
     key = (mode, T, bool(_raw_ready(res)), res._is_exc, rel,
            res._ttl.finite, tuple(sorted((round(a - now, 3), k) for a, k in arrivals if a > now + EPS)),
-           bytes(sy.a.inbox), tuple(m.cbs), tuple(ran), len(res._callbacks), m.status,
+           _ADDR.sub(b'#', bytes(sy.a.inbox)), tuple(m.cbs), tuple(ran), len(res._callbacks), m.status,
            tuple(sorted(x for x in sy.pending_unrel(now))), len(sy.conn._request_callbacks))
     return key, enabled_events(sy, m, arrivals, now), viol, None
+
+
+import re as _re
+_ADDR = _re.compile(rb'\d{9,}')     # object addresses inside boxed references are not part of the state
 
 
 def _raw_ready(res):
@@ -512,24 +516,29 @@ def enabled_events(sy, m, arrivals, now, thorough=None):
         evs.append(("value",))
         evs.append(("wait",))
     nun = sum(1 for e, _, _, _, _ in sy.obs if e[0] == "unrel_req")
-    if nun < 1:
+    if nun < (2 if thorough else 1):
         evs.append(("unrel_req", 0, 0.75))
         evs.append(("unrel_req", 0.5, 0.75))
+        evs.append(("unrel_req", 0, 0))
         if thorough:
-            evs.append(("unrel_req", 0, 0))
             evs.append(("unrel_req", 1.0, 0.75))
-    if thorough and not any(e[0] == "unrel_reply" for e, _, _, _, _ in sy.obs):
+    if not any(e[0] == "unrel_reply" for e, _, _, _, _ in sy.obs):
         evs.append(("unrel_reply",))
-    if thorough and not any(e[0] == "set_expiry" for e, _, _, _, _ in sy.obs):
+    nse = sum(1 for e, _, _, _, _ in sy.obs if e[0] == "set_expiry")
+    # re-arming a result whose outcome is already final is outside the property's domain (its orderings are of arrival,
+    # expiry, registration, queries, waits and traffic): the expiry is only changed while the result is pending
+    if nse < (2 if thorough else 1) and m.status == "pending":
         evs.append(("set_expiry", 1))
+        if thorough:
+            evs.append(("set_expiry", 0.5))
     return evs
 
 
 THOROUGH = [False]
 CONFIGS = {
-    "quick": dict(depth=6, modes=[("async", None), ("async", 1), ("async", 0), ("async", -1), ("async", 2), ("timed", 1),
+    "quick": dict(depth=9, modes=[("async", None), ("async", 1), ("async", 0), ("async", -1), ("async", 2), ("timed", 1),
                                   ("async", "unset")]),
-    "thorough": dict(depth=7, modes=[("async", None), ("async", 1), ("async", 0), ("async", -1), ("async", 2),
+    "thorough": dict(depth=11, modes=[("async", None), ("async", 1), ("async", 0), ("async", -1), ("async", 2),
                                      ("timed", 1), ("timed", 2), ("timed", 0), ("async", "unset")]),
 }
 
